@@ -74,7 +74,7 @@ def bq(inst, entry, name=None, defs=None, **kw):
     return Query('%s/%s' % (inst, name or entry[2:]), 'C19_bigint.cpp', entry, d, bounds=b, default_unwind=nw + 1,
                  cflags=PRIV, **kw)
 
-PLAIN = ['h_add', 'h_add_op', 'h_sub', 'h_sub_op', 'h_shr', 'h_or', 'h_flb', 'h_cmp', 'h_set', 'h_clear', 'h_copy_ctor']
+PLAIN = ['h_ffb_zero', 'h_add', 'h_add_op', 'h_sub', 'h_sub_op', 'h_shr', 'h_or', 'h_flb', 'h_cmp', 'h_set', 'h_clear', 'h_copy_ctor']
 # entry -> known finding whose predicate is assumed away in the proving query
 WITH_KF = {'h_shl': 'C19-shl-zero', 'h_and': 'C19-and-stale', 'h_and_wide': 'C19-and-stale', 'h_ffb': 'C19-ffb',
            'h_copy_assign': 'C19-copy-stale'}
